@@ -301,6 +301,16 @@ func mutateStep(c *Ctx, bm *BM, o MutOpts) string {
 				if !ok {
 					return
 				}
+				// boundary-biased stop: the run being eaten has two values left (one more removal makes it a single value)
+				if ivs := sub.Intervals(); i > 0 && len(ivs) > 0 {
+					e := ivs[len(ivs)-1]
+					if !fromTop {
+						e = ivs[0]
+					}
+					if e.Hi-e.Lo == 1 && r.Chance(0.5) {
+						return
+					}
+				}
 				want := true
 				if i%2 == 0 {
 					b.Remove(uint32(x))
